@@ -225,11 +225,53 @@ def A_stream_sampler():
   return emit
 
 
+GET_INIT = """self._federated_data = fd
+self._num_clients = num_clients
+self._seed = seed
+self._client_ids = list(self._federated_data.client_ids())
+self._round_num = start_round_num
+"""
+FORBIDDEN_CALLS = ('hash', 'id', 'uuid', 'getattr', 'setattr', 'globals', 'vars')
+FORBIDDEN_PREFIXES = ('time.', 'os.environ', 'os.getenv', 'uuid.', 'random.', 'secrets.', 'datetime.')
+ALLOWED_NP_RANDOM = ('np.random.RandomState',)
+
+
+def A_purity():
+  """Fail-closed recogniser for the purity / determinism clauses: the constructor only stores its
+  arguments, and nothing in the module reads a clock, the environment, object identities, hash values
+  or an unseeded random source."""
+  def emit(tree):
+    init = _nodoc(find_def(tree, 'UniformGetClientSampler.__init__').body)
+    want = ast.parse(GET_INIT).body
+    if len(init) != len(want) or not all(_same(a, b) for a, b in zip(init, want)):
+      raise Unsupported('UniformGetClientSampler.__init__: unexpected body')
+    for n in ast.walk(tree):
+      if isinstance(n, ast.Call):
+        d = _safe_dotted(n.func)
+        if d in FORBIDDEN_CALLS:
+          raise Unsupported(f'call of {d}() in client_samplers.py')
+      if isinstance(n, (ast.Attribute, ast.Name)):
+        d = _safe_dotted(n)
+        if d is None:
+          continue
+        if any(d == pfx.rstrip('.') or d.startswith(pfx) for pfx in FORBIDDEN_PREFIXES):
+          raise Unsupported(f'use of {d} in client_samplers.py')
+        if d.startswith('np.random.') and not any(d == a or d.startswith(a + '.') for a in ALLOWED_NP_RANDOM):
+          raise Unsupported(f'use of {d} (only np.random.RandomState(<seed>) is modelled)')
+    for n in ast.walk(tree):      # RandomState must always get an explicit seed argument
+      if isinstance(n, ast.Call) and _safe_dotted(n.func) == 'np.random.RandomState' and (len(n.args) != 1 or n.keywords):
+        raise Unsupported('np.random.RandomState without exactly one (seed) argument')
+    return ('(* recognised: UniformGetClientSampler.__init__ only stores its arguments and list(fd.client_ids());\n'
+            '   no clock / environment / hash() / id() / unseeded random source in client_samplers.py *)\n'
+            'Definition client_samplers_purity_recognised : unit := tt.')
+  return emit
+
+
 MODULES['Gen_client_samplers_model'] = {
     'src': CS,
     'preamble': ('From FV Require Import Model.C13_Model.\nSection Gen_client_samplers_model.\n'
                  'Context {Id D : Type} (id_eqb : Id -> Id -> bool) (prs : Z -> Z -> option Z)\n'
                  '  (choice : Z -> list Id -> Z -> list Id) (fd : list (Id * D)) (num_clients seed : Z).\n'),
     'postamble': 'End Gen_client_samplers_model.\n',
-    'items': [A_get_sample(), A_stream_sampler()],
+    'items': [A_get_sample(), A_stream_sampler(), A_purity()],
 }
